@@ -1594,6 +1594,19 @@ def inline_calls(c, facts, depth=0):
             if body[0] != 'hir':
                 return inline_calls(body, facts, depth + 1)
         return ('call', c[1], args)
+    if c and c[0] == 'call' and isinstance(c[1], tuple) and c[1][:1] == ('closure',) and len(c[1]) > 1 and c[1][1] in facts.fns and len(c) == 3:
+        # `let ok = |n: usize| n > 0 && n < LIMIT; ok(a) && ok(b)`: a local closure that reads nothing but its parameters
+        g = facts.fns[c[1][1]]
+        ps = g.hir.get('params', []) if g.hir else []
+        args = tuple(inline_calls(a, facts, depth) for a in c[2])
+        if len(ps) == len(args) and all(p.get('k') == 'bind' for p in ps):
+            ids = {p['id'] for p in ps}
+            foreign = hir_find(g.hir['value'], lambda m: m.get('k') == 'path' and m.get('res') == 'local' and m.get('id') not in ids)
+            if not foreign:
+                body = hcanon(g.hir['value'], {p['id']: a for p, a in zip(ps, args)})
+                if body[0] != 'hir':
+                    return inline_calls(body, facts, depth + 1)
+        return ('call', c[1], args)
     return tuple(inline_calls(x, facts, depth) for x in c)
 
 
